@@ -41,6 +41,8 @@ ModelStep(o) ==      \* [rows, uids, uid, exists, writer, ret] after operation o
                                   uid |-> IF uid < 0 THEN uid ELSE uid + 1, exists |-> exists, writer |-> writer,
                                   ret |-> [kind |-> "count", n |-> IF o.d = 0 THEN 0 ELSE NTracts(o.d)],
                                   ptags |-> IF o.d = 0 THEN ptags ELSE ptags \o [i \in 1..NTracts(o.d) |-> o.p]]
+    [] o.name = "wwrite_bad" -> [rows |-> rows, uids |-> uids, uid |-> uid, exists |-> exists, writer |-> writer,
+                                ret |-> [kind |-> IF writer = "closed" THEN "RuntimeError" ELSE "TypeError", n |-> 0], ptags |-> ptags]
     [] o.name = "wclose" -> [rows |-> rows, uids |-> uids, uid |-> uid, exists |-> exists, writer |-> "closed", ret |-> None, ptags |-> ptags]
     [] o.name = "wopen" -> [rows |-> rows, uids |-> uids, uid |-> uid, exists |-> exists, writer |-> "open", ret |-> None, ptags |-> ptags]
 
@@ -61,6 +63,9 @@ Consume ==
               m == ModelStep(ev.op)
               skip == failed /\ ~isstart
               clause == IF m.ret.kind = "RuntimeError" THEN (IF ev.exc = "RuntimeError" THEN "ok" ELSE "write_on_closed_writer_not_rejected")
+                        ELSE IF m.ret.kind = "TypeError" /\ ev.exc = "none" THEN "unacceptable_object_written"
+                        ELSE IF m.ret.kind = "TypeError" /\ ev.rows # m.rows THEN "rejected_write_left_rows_in_the_file"
+                        ELSE IF m.ret.kind = "TypeError" THEN "ok"
                         ELSE IF ev.exc # "none" THEN "exception_raised"
                         ELSE IF Len(ev.rows) # Len(m.rows) THEN "wrong_number_of_rows"
                         ELSE IF ev.rows # m.rows THEN "rows_differ_from_header_plus_one_row_per_tract"
